@@ -6,6 +6,8 @@ CONSTANTS NP = 2
   Cap = 9
   D = 3
   Skip <- MCNoSkip
+  ResOut = 65533
+  ResOther = 65531
   Thin = TRUE
 INIT Init
 NEXT Next
